@@ -274,8 +274,10 @@ class Interp:
             c = self.contracts[key]
             if c.get("opaque_call", True):
                 return self.call_by_contract(f, c, args, kwargs)
-        if f.is_spec and getattr(f, "opaque", None):
-            pass
+        if f.is_spec and f.closure is None:
+            nat = f.gl.get(f.qualname)
+            if getattr(nat, "__pyvc_opaque__", None):
+                return self.call_opaque(f, nat, args, kwargs)
         if self.depth >= MAX_INLINE_DEPTH:
             raise Unsupported(f"inline depth exceeded at {key}")
         if key == self.target_key and self.depth > 0:
@@ -304,14 +306,62 @@ class Interp:
             self.loopspecs = saved_loops
             self.spec_mode = was_spec
 
+    def call_opaque(self, f: IFunc, nat, args, kwargs):
+        """Spec function with a hidden definition: UF on unbounded strings, definition on bounded
+        ones, the two linked by the definitional instance UF(origin) == body(chars)."""
+        ret = nat.__pyvc_opaque__
+        args = [mk(a) for a in args]
+        unbounded = [a for a in args if isinstance(a, SV) and a.kind == "str"]
+        rs = {"int": z3.IntSort(), "bool": z3.BoolSort(), "str": z3.StringSort()}[ret]
+
+        def sort_of(a):
+            if sym.is_strlike(a):
+                return z3.StringSort()
+            if sym.is_intlike(a):
+                return z3.IntSort()
+            if sym.is_boollike(a):
+                return z3.BoolSort()
+            raise Unsupported("opaque spec function argument type")
+
+        def term_of(a):
+            return sym.zstr(a) if sym.is_strlike(a) else sym.zint(a) if sym.is_intlike(a) else sym.zbool(a)
+
+        uf = sym.ufun("spec_" + f.qualname, *[sort_of(a) for a in args], rs)
+        if unbounded:
+            return mk(SV(uf(*[term_of(a) for a in args]), ret))
+        # bounded / concrete: the definition
+        loc = self.bind_params(f, args, kwargs, f.gl)
+        env = Env(f.gl, loc, None, f)
+        self.depth += 1
+        self.spec_mode += 1
+        try:
+            try:
+                self.exec_block(f.node.body, env)
+                val = None
+            except _Return as r:
+                val = r.v
+        finally:
+            self.depth -= 1
+            self.spec_mode -= 1
+        if any((isinstance(a, BStr) and a.origin is not None) or isinstance(a, str) for a in args):
+            t = term_of(val) if ret != "bool" else sym.truth_term(self.ctx, val)
+            t = z3.BoolVal(t) if isinstance(t, bool) else t
+            self.ctx.assume(uf(*[term_of(a) for a in args]) == t)
+        return val
+
     # ---------------------------------------------------------------- contracts at call sites
     def call_by_contract(self, f: IFunc, c: dict, args, kwargs):
         from .spec import eval_clause, havoc_paths, snapshot
 
         self.used_contracts.add(f.key)
         loc = self.bind_params(f, args, kwargs, f.gl)
-        old = snapshot(loc)
         cname = f.qualname
+        for p, ty in c.get("args", {}).items():
+            if isinstance(ty, sym.TBStr) and p in loc and isinstance(mk(loc[p]), SV):
+                t = sym.zstr(loc[p])
+                self.ctx.obligate(f"pre@{cname}/bounded/{p}", z3.And(z3.Length(t) >= ty.lo, z3.Length(t) <= ty.hi), kind="pre@call", detail=f"{ty.lo} <= len({p}) <= {ty.hi}")
+                loc[p] = sym.coerce_to_bstr(self.ctx, loc[p], ty.lo, ty.hi)
+        old = snapshot(loc)
         for name, clause in c.get("requires", {}).items():
             t = eval_clause(self, c, clause, loc, old, None)
             self.ctx.obligate(f"pre@{cname}/{name}", _as_term(t), kind="pre@call", detail=clause)
@@ -320,14 +370,23 @@ class Interp:
             t = eval_clause(self, c, clause, loc, old, None)
             if self.ctx.branch(_as_term(t), f"{cname} raises {etype}"):
                 raise PyRaise(etype, f"by contract of {cname}")
+        saved_og = getattr(self, "old_ghost", None)
+        self.old_ghost = _ghost_copy(self.ctx.ghost)
+        if c.get("ghost_effect"):
+            c["ghost_effect"](self, loc)
         havoc_paths(self, c.get("modifies", {}), loc)
         res = None
         rty = c.get("returns")
         if rty is not None:
             res = rty.fresh(self.ctx, f"{cname}.result")
+            if isinstance(res, BStr):
+                o = self.ctx.fresh(f"{cname}.result.s", z3.StringSort())
+                self.ctx.assume(o == sym.zstr(res))
+                res.origin = o
         for name, clause in c.get("ensures", {}).items():
             t = eval_clause(self, c, clause, loc, old, res)
             self.ctx.assume(_as_term(t))
+        self.old_ghost = saved_og
         if not self.ctx.feasible():
             raise Abort("callee postcondition infeasible")
         return res
@@ -682,7 +741,7 @@ class Interp:
             pass
         from . import spec as _spec
 
-        if self.spec_mode and e.id in _spec.PRIMS:
+        if e.id in _spec.PRIMS and (self.spec_mode or (env.func is not None and env.func.is_spec)):
             return _spec.PRIMS[e.id]
         if e.id in env.gl:
             return self.wrap_global(env.gl[e.id], e.id)
@@ -875,6 +934,25 @@ class Interp:
         r = self.models.subscript(self, v, idx)
         if r is not MISSING:
             return r
+        if isinstance(v, NativeRef):
+            # typing subscripts: dict[str, str], Optional[X] ... (annotations / cast arguments)
+            def unw(x):
+                if isinstance(x, NativeRef):
+                    return x.obj
+                if isinstance(x, tuple):
+                    return tuple(unw(y) for y in x)
+                return x
+
+            try:
+                return NativeRef(v.obj[unw(idx)])
+            except Exception as e:
+                raise Unsupported(f"subscript of native object {v.obj!r}: {e}")
+        if self.spec_mode and not isinstance(idx, slice):
+            # specifications use total selection on symbolic containers (guards are the clause's business)
+            if isinstance(v, SMap):
+                return sym.mk_elem(v.vty, z3.Select(v.val, v.kty.unwrap(self.ctx, idx)))
+            if isinstance(v, SList) and (isinstance(mk(idx), SV) or (isinstance(mk(idx), int) and mk(idx) >= 0)):
+                return sym.mk_elem(v.ety, z3.Select(v.arr, sym.zint(idx)))
         return sym.subscript(self.ctx, v, idx)
 
     def e_Slice(self, e, env):
@@ -1064,7 +1142,13 @@ class Interp:
             l = dict(env.locals)
             l.update(self.old_env)
             oe = Env(env.gl, l, env.closure, env.func)
-            return self.eval(e.args[0], oe)
+            g = self.ctx.ghost
+            if getattr(self, "old_ghost", None) is not None:
+                self.ctx.ghost = self.old_ghost
+            try:
+                return self.eval(e.args[0], oe)
+            finally:
+                self.ctx.ghost = g
         fn = self.eval(e.func, env)
         args = []
         for a in e.args:
@@ -1105,6 +1189,10 @@ class Interp:
         if callable(fn) and is_concrete(fn):
             return self.models.call_native(self, fn, args, kwargs)
         raise Unsupported(f"call of {type(fn).__name__}")
+
+
+def _ghost_copy(g: dict) -> dict:
+    return {k: (list(v) if isinstance(v, list) else v) for k, v in g.items()}
 
 
 class _Partial:
